@@ -1,7 +1,6 @@
 package pki
 
 import (
-	"regexp"
 	"sort"
 	"testing"
 )
@@ -18,22 +17,15 @@ func TestZZDeviationSummary(t *testing.T) {
 	devMu.Lock()
 	defer devMu.Unlock()
 	var ids []string
-	for id := range devSeen {
+	for id := range KnownDeviations {
 		ids = append(ids, id)
 	}
 	sort.Strings(ids)
 	for _, id := range ids {
-		t.Logf("observed deviation %s: %s", id, devSeen[id])
-	}
-	for _, k := range knownDeviations {
-		hit := false
-		for _, id := range ids {
-			if regexp.MustCompile(k.pattern).MatchString(id) {
-				hit = true
-			}
-		}
-		if !hit {
-			t.Logf("known deviation %s was not observed in this run", k.pattern)
+		if n := len(devSeen[id]); n > 0 {
+			t.Logf("known deviation %-28s observed in %3d scenario runs, e.g. %s", id, n, devSeen[id][0])
+		} else {
+			t.Logf("known deviation %-28s not observed in this run", id)
 		}
 	}
 }
